@@ -429,13 +429,12 @@ class WritableStream(io.RawIOBase):
             command = REQUEST_SEGMENT_DOWNLOAD
             # Add toggle bit
             command |= self._toggle
-            self._toggle ^= TOGGLE_BIT
             # Can send up to 7 bytes at a time
             bytes_sent = min(len(b), 7)
-            if self.size is not None and self.pos + bytes_sent >= self.size:
+            last = self.size is not None and self.pos + bytes_sent >= self.size
+            if last:
                 # No more data after this message
                 command |= NO_MORE_DATA
-                self._done = True
             # Specify number of bytes that do not contain segment data
             command |= (7 - bytes_sent) << 1
             request[0] = command
@@ -452,6 +451,11 @@ class WritableStream(io.RawIOBase):
                 self._done = True
                 self._error = exc
                 raise
+            # The segment has been confirmed; until then a write() repeated
+            # after a failed transmission must send the same segment again
+            self._toggle ^= TOGGLE_BIT
+            if last:
+                self._done = True
         # Advance position
         self.pos += bytes_sent
         return bytes_sent
